@@ -157,6 +157,9 @@ func (c *child) workFn(mod string, w *Work) func(ctx context.Context) error {
 		if w.Panic != "" && n == 1 {
 			PanicNow(w.Panic)
 		}
+		if w.Fail && n == 1 {
+			return fmt.Errorf("work item %d fails on purpose", w.ID)
+		}
 		return nil
 	}
 }
@@ -183,7 +186,11 @@ func (c *child) launch(mod string, w *Work) {
 	case "startworker":
 		m.StartWorker(name, fn)
 	case "service":
-		m.StartServiceWorker(name, time.Millisecond, fn)
+		backoff := time.Millisecond
+		if w.BackoffMS > 0 {
+			backoff = time.Duration(w.BackoffMS) * time.Millisecond
+		}
+		m.StartServiceWorker(name, backoff, fn)
 	case "task":
 		t := m.NewTask(name, func(ctx context.Context, _ *modules.Task) error { return fn(ctx) })
 		c.tasks[w.ID] = t
